@@ -135,10 +135,76 @@ package bed
 //@   requires !w.failed
 //@   ensures (b.N < 3 || b.N > 12) ==> result != nil && same(w.out, old(w.out)) && !w.failed
 //@   ensures 3 <= b.N && b.N <= 12 ==> (result == nil <==> !w.failed)
+// layout of the written line: field k occupies out[Sk..Ek), followed by a TAB (or the final LF)
+//@   let L0 := old(len(w.out))
+//@   let E0 := L0 + len(b.Chrom)
+//@   let S1 := E0 + 1
+//@   let E1 := S1 + len(itoa(b.ChromStart))
+//@   let S2 := E1 + 1
+//@   let E2 := S2 + len(itoa(b.ChromEnd))
+//@   let S3 := E2 + 1
+//@   let E3 := S3 + len(b.Name)
+//@   let S4 := E3 + 1
+//@   let E4 := S4 + len(itoa(b.Score))
+//@   let S5 := E4 + 1
+//@   let E5 := S5 + len(b.Strand)
+//@   let S6 := E5 + 1
+//@   let E6 := S6 + len(itoa(b.ThickStart))
+//@   let S7 := E6 + 1
+//@   let E7 := S7 + len(itoa(b.ThickEnd))
+//@   let S8 := E7 + 1
+//@   let C1 := S8 + len(itoa(b.ItemRGB[0]))
+//@   let C2 := C1 + 1 + len(itoa(b.ItemRGB[1]))
+//@   let E8 := C2 + 1 + len(itoa(b.ItemRGB[2]))
+//@   let S9 := E8 + 1
+//@   let E9 := S9 + len(itoa(b.BlockCount))
+//@   let S10 := E9 + 1
+//@   let E10 := S10 + lw(b.BlockSizes, len(b.BlockSizes))
+//@   let S11 := E10 + 1
+//@   let E11 := S11 + lw(b.BlockStarts, len(b.BlockStarts))
+//@   let EN := b.N == 3 ? E2 : (b.N == 4 ? E3 : (b.N == 5 ? E4 : (b.N == 6 ? E5 : (b.N == 7 ? E6 : (b.N == 8 ? E7 : (b.N == 9 ? E8 : (b.N == 10 ? E9 : (b.N == 11 ? E10 : E11))))))))
+//@   let ok := 3 <= b.N && b.N <= 12 && result == nil
+//@   ensures @C04 ok ==> len(w.out) == EN + 1 && w.out[EN] == 10
+//@   ensures @C04 ok ==> forall x int :: 0 <= x && x < L0 ==> w.out[x] == old(w.out)[x]
+//@   ensures @C04 ok ==> forall x int :: L0 <= x && x < E0 ==> w.out[x] == b.Chrom[x - L0]
+//@   ensures @C04 ok ==> w.out[E0] == 9 && forall x int :: S1 <= x && x < E1 ==> w.out[x] == itoa(b.ChromStart)[x - S1]
+//@   ensures @C04 ok ==> w.out[E1] == 9 && forall x int :: S2 <= x && x < E2 ==> w.out[x] == itoa(b.ChromEnd)[x - S2]
+//@   ensures @C04 ok && b.N > 3 ==> w.out[E2] == 9 && forall x int :: S3 <= x && x < E3 ==> w.out[x] == b.Name[x - S3]
+//@   ensures @C04 ok && b.N > 4 ==> w.out[E3] == 9 && forall x int :: S4 <= x && x < E4 ==> w.out[x] == itoa(b.Score)[x - S4]
+//@   ensures @C04 ok && b.N > 5 ==> w.out[E4] == 9 && forall x int :: S5 <= x && x < E5 ==> w.out[x] == b.Strand[x - S5]
+//@   ensures @C04 ok && b.N > 6 ==> w.out[E5] == 9 && forall x int :: S6 <= x && x < E6 ==> w.out[x] == itoa(b.ThickStart)[x - S6]
+//@   ensures @C04 ok && b.N > 7 ==> w.out[E6] == 9 && forall x int :: S7 <= x && x < E7 ==> w.out[x] == itoa(b.ThickEnd)[x - S7]
+//@   ensures @C04 ok && b.N > 8 ==> w.out[E7] == 9 && w.out[C1] == ',' && w.out[C2] == ','
+//@   ensures @C04 ok && b.N > 8 ==> forall x int :: S8 <= x && x < C1 ==> w.out[x] == itoa(b.ItemRGB[0])[x - S8]
+//@   ensures @C04 ok && b.N > 8 ==> forall x int :: C1 + 1 <= x && x < C2 ==> w.out[x] == itoa(b.ItemRGB[1])[x - (C1 + 1)]
+//@   ensures @C04 ok && b.N > 8 ==> forall x int :: C2 + 1 <= x && x < E8 ==> w.out[x] == itoa(b.ItemRGB[2])[x - (C2 + 1)]
+//@   ensures @C04 ok && b.N > 9 ==> w.out[E8] == 9 && forall x int :: S9 <= x && x < E9 ==> w.out[x] == itoa(b.BlockCount)[x - S9]
+//@   ensures @C04 ok && b.N > 10 ==> w.out[E9] == 9
+//@   ensures @C04 ok && b.N > 10 ==> forall m int :: 1 <= m && m < len(b.BlockSizes) ==> w.out[S10 + lw(b.BlockSizes, m)] == ','
+//@   ensures @C04 ok && b.N > 10 ==> forall m int, x int :: {lw(b.BlockSizes, m), w.out[x]} 0 <= m && m < len(b.BlockSizes) && S10 + lws(b.BlockSizes, m) <= x && x < S10 + lwe(b.BlockSizes, m) ==>
+//@               w.out[x] == itoa(b.BlockSizes[m])[x - (S10 + lws(b.BlockSizes, m))]
+//@   ensures @C04 ok && b.N > 11 ==> w.out[E10] == 9
+//@   ensures @C04 ok && b.N > 11 ==> forall m int :: 1 <= m && m < len(b.BlockStarts) ==> w.out[S11 + lw(b.BlockStarts, m)] == ','
+//@   ensures @C04 ok && b.N > 11 ==> forall m int, x int :: {lw(b.BlockStarts, m), w.out[x]} 0 <= m && m < len(b.BlockStarts) && S11 + lws(b.BlockStarts, m) <= x && x < S11 + lwe(b.BlockStarts, m) ==>
+//@               w.out[x] == itoa(b.BlockStarts[m])[x - (S11 + lws(b.BlockStarts, m))]
 //@   loop 1
+//@     snapshot P1 := w.out
 //@     invariant b != nil && !w.failed && 3 <= b.N && b.N <= 12
+//@     invariant 0 <= i && i <= len(b.BlockSizes)
+//@     invariant len(w.out) == len(P1) + lw(b.BlockSizes, i)
+//@     invariant forall x int :: 0 <= x && x < len(P1) ==> w.out[x] == P1[x]
+//@     invariant forall m int :: 1 <= m && m < i ==> w.out[len(P1) + lw(b.BlockSizes, m)] == ','
+//@     invariant forall m int, x int :: {lw(b.BlockSizes, m), w.out[x]} 0 <= m && m < i && len(P1) + lws(b.BlockSizes, m) <= x && x < len(P1) + lwe(b.BlockSizes, m) ==>
+//@               w.out[x] == itoa(b.BlockSizes[m])[x - (len(P1) + lws(b.BlockSizes, m))]
 //@   loop 2
+//@     snapshot P2 := w.out
 //@     invariant b != nil && !w.failed && 3 <= b.N && b.N <= 12
+//@     invariant 0 <= i && i <= len(b.BlockStarts)
+//@     invariant len(w.out) == len(P2) + lw(b.BlockStarts, i)
+//@     invariant forall x int :: 0 <= x && x < len(P2) ==> w.out[x] == P2[x]
+//@     invariant forall m int :: 1 <= m && m < i ==> w.out[len(P2) + lw(b.BlockStarts, m)] == ','
+//@     invariant forall m int, x int :: {lw(b.BlockStarts, m), w.out[x]} 0 <= m && m < i && len(P2) + lws(b.BlockStarts, m) <= x && x < len(P2) + lwe(b.BlockStarts, m) ==>
+//@               w.out[x] == itoa(b.BlockStarts[m])[x - (len(P2) + lws(b.BlockStarts, m))]
 
 //@ func BED.MarshalText
 //@   props C04
